@@ -49,6 +49,10 @@ let () =
       let d = decide (ctx_of x) cmd (prior_of p) (fst (ins_of i)) outs in
       show_decision d ^ " " ^ (match produced cmd outs d with None -> "-" | Some v -> show_value v)
     | _ -> "ERR args");
+  (* the decision of the code before repair a03bdd8 (kept for the corpus witness) *)
+  register "decide_unrepaired" (function [x; c; p; i; o] ->
+      show_decision (decide_unrepaired (ctx_of x) (cmd_of c) (prior_of p) (fst (ins_of i)) (fis_of o))
+    | _ -> "ERR args");
   register "step" (function [x; c; p; i; o] ->
       let (ins, chg) = ins_of i in
       (match rule_step (ctx_of x) (cmd_of c) (prior_of p) ins chg (fis_of o) with
